@@ -263,16 +263,24 @@ fn main() {
             cr
         }));
         // ---- maximum transfer length: at flute's limit, one above, above the wire limit
-        let mut maxcases: Vec<(OtiSpec, i64)> = vec![];
+        let mut maxcases: Vec<(OtiSpec, i64, CencSpec)> = vec![];
         for (fec, e, b) in [(Fec::Rs28, 1u16, 1u32), (Fec::Rs28, 2, 2), (Fec::RaptorQ, 4, 4), (Fec::RaptorQ, 1, 1), (Fec::NoCode, 1, 1), (Fec::Raptor, 1, 4)] {
             for d in [-1i64, 0, 1, 2] {
                 let o = OtiSpec::new(fec, e, b, if fec == Fec::NoCode { 0 } else { 1 });
-                maxcases.push((o, d));
+                maxcases.push((o, d, CencSpec::Null));
+            }
+            // content-encoded, incompressible data: the CONTENT length is below the maximum but the TRANSFER length
+            // (content + 5..35 bytes of deflate / zlib / gzip framing) is at or above it - the limit applies to the latter
+            for cenc in [CencSpec::Gzip, CencSpec::Zlib, CencSpec::Deflate] {
+                for d in [-1i64, -4, -10, -40] {
+                    let o = OtiSpec::new(fec, e, b, if fec == Fec::NoCode { 0 } else { 1 });
+                    maxcases.push((o, d, cenc));
+                }
             }
         }
         let n_max = maxcases.len();
         gens.push(Gen::new("max_length", n_max, move |ctx, i| {
-            let (oti, d) = maxcases[i].clone();
+            let (oti, d, cenc) = maxcases[i].clone();
             let mut rng = Rng::keyed(ctx.seed, "C01max", 0, i as u64);
             // flute's own limit is E*B*{65535,255,255,65535}; probe around it
             let flute_blocks: u64 = match oti.fec {
@@ -283,8 +291,9 @@ fn main() {
             let spec = SenderSpec::new(OtiSpec::new(Fec::NoCode, 1024, 64, 0));
             let mut obj = ObjSpec::new(gen_bytes(&mut rng, l as usize), "file:///max/o.bin");
             obj.oti = Some(oti.clone());
+            obj.cenc = cenc;
             let mut cr = CaseResult::default();
-            let wit = json!({"oti": oti.json(), "L": l});
+            let wit = json!({"oti": oti.json(), "L": l, "cenc": cenc.name()});
             let r = util::guarded(|| {
                 let em = emit(&spec, &[obj.clone()], &EmitOpts { max_packets: 400_000, max_instants: 50, ..Default::default() })?;
                 let rx = receive_stream(&em, &RxOpts::default());
@@ -296,8 +305,8 @@ fn main() {
                 Ok(Ok((em, rx))) => {
                     let s = judge(&em, &rx, true, &mut cr.violations);
                     cr.count("packets", em.stream.len() as u64);
-                    cr.shape = Some(util::fnv(&format!("max|{}|{}|{}|{}", oti.fec.name(), oti.e, oti.b, d)));
-                    cr.sample = Some(json!({"oti": oti.json(), "L": l, "accepted": em.tois[0].is_some(), "outcome": s}));
+                    cr.shape = Some(util::fnv(&format!("max|{}|{}|{}|{}|{}", oti.fec.name(), oti.e, oti.b, d, cenc.name())));
+                    cr.sample = Some(json!({"oti": oti.json(), "content_length": l, "cenc": cenc.name(), "transfer_length": em.transfer_len[0], "accepted": em.tois[0].is_some(), "outcome": s}));
                 }
             }
             cr
